@@ -24,6 +24,7 @@ import Martian.VdrAll
 import Proofs.VdrAll
 import Proofs.VdrDone
 import Proofs.VdrHyp
+import Proofs.VdrCover
 import Martian.VdrEval
 import Proofs.VdrEval
 
@@ -308,13 +309,13 @@ clone holds and that is not a completed consumer; and every holder the clone
 has was registered for the original at construction. -/
 theorem expanded_fork_safe (c c' : Cfg) (s0 : St) (evs evs' : List Ev) (disk : List DiskEnt)
     (ok' : CfgOK c' (cloneFork (run c s0 evs) disk)) (hv' : c'.volatile = true)
-    (ok : CfgOK c s0) (wf : DiskWF s0.disk) (fr : Fresh s0) (h0 : s0.report.count = 0 ∧ s0.report.size = 0)
+    (ok : CfgOK c s0) (fr : Fresh s0)
     (hv : c.volatile = true) (bk : BK s0) (hf : s0.final = false) :
     (∀ a h, Holds (cloneFork (run c s0 evs) disk) a h → Holds s0 a h) ∧
     ∀ d ∈ (run c' (cloneFork (run c s0 evs) disk) evs').removed, isTmp d.kind = false →
       ∀ a h, Holds (cloneFork (run c s0 evs) disk) a h → refs c' a d.path = true →
         ∃ n, h = some n ∧ n ∈ (run c' (cloneFork (run c s0 evs) disk) evs').doneNodes := by
-  obtain ⟨_, r⟩ := joint_run ok wf hv bk (XInv.init s0 fr h0) (RInv.init c s0 fr bk hf) evs
+  obtain ⟨_, r⟩ := VR.run ok hv bk (VInv.init s0 fr) (RInv.init c s0 fr bk hf) evs
   refine ⟨?_, ?_⟩
   · intro a h hh
     exact r.sh.holds a h ((cloneFork_holds _ disk a h).mp hh)
@@ -581,6 +582,18 @@ example :
      (run c s [.removeEmpty, .cacheMap, .kill, .nodeDone "C1", .restart, .kill, .nodeDone "C2", .kill]).disk.map (·.path) =
        ["/p/f/k".toList]) := by
   refine ⟨by decide, .child (.next (.child (.next .here))), .child (.next (.pipe (by simp))), by decide, by decide⟩
+
+/-- `args_present_at_start_tree` instantiated on the nested tree: consumer `C2`, reference
+`P.bag.f` (the file-typed member of the struct literal), every node with the same configuration -/
+example : ∃ t, ("P", t) ∈ build (opsOf bigTree) := by
+  have hsc : scopedB [] bigTree = some ["TOP", "SUB", "C2", "C1", "P"] := by decide
+  have sc : Scoped [] bigTree ["TOP", "SUB", "C2", "C1", "P"] := scoped_decided bigTree _ hsc
+  have hst : HasStage bigTree "C2" [(.map (.cons "f" (.ref "P" "bag.f") (.cons "n" (.ref "P" "bag.n") .nil)),
+      .struct (.mcons "f" (.prim true) (.mcons "n" (.prim false) .mnil)))] :=
+    .child (.next (.child (.next .here)))
+  obtain ⟨t, ht, _⟩ := args_present_at_start_tree bigTree _ sc (fun _ => exCfg) (fun _ => []) []
+    "C2" _ hst _ List.mem_cons_self "P" "bag.f" (by decide)
+  exact ⟨t, ht⟩
 
 /-- two forks, interleaved: the completion of `C` is seen by both -/
 example :
